@@ -21,6 +21,9 @@ CHECKS = {
                 text="Bounded differential symbolic check of the real channel-file classes against a position+slice reference file."),
     "C20": dict(cat="other", ref="DESIGN.md §4 C20", technique="CrossHair symbolic execution of XSpec parsing/printing/equality and Group registration/lookup/allocate_id with symbolic values and ids",
                 text="Bounded symbolic check of spec parsing (catalogue keys x symbolic values, duplicates of either kind) and of the group container/id-allocation code (symbolic ids); the concurrent-allocation part of the statement is outside this check."),
+    "C08": dict(cat="other", ref="DESIGN.md §4 C08", technique="CrossHair symbolic execution of Message.to_io/from_io over the real Popen2IO/SocketIO/ProxyIO adapters with symbolic message fields and a symbolic chunking script",
+                text="Bounded symbolic check of framing under arbitrary chunking on all three transports' read/write adapters; the concurrent-sender atomicity part of the statement is not decided by this check (see level_note).",
+                note=E1_NOTE + "; frame atomicity under concurrent senders needs the schedule engine (E2) and is outside this check"),
 }
 
 NOT_APPLICABLE = [
